@@ -19,7 +19,7 @@ TEXT = {
     "C13": "full proof on the model: C13_full = Props.C13_statement (for every input every block and inline node has a valid span and the shape of its construct); tie: (kind, span) correspondence plus the shape oracle and the formal statement evaluated on the implementation's trees",
     "C14": "proof on the model: CR clause through the whole pipeline for every input (parseFull_cr, renderDoc_cr: rendered HTML equal up to LF/CR); at the block layer: padding clause for every input (parseBlocks_blank_prefix), final-newline clause for every input (parseBlocks_final_newline, exact tree relation), CRLF clause for every input without '[' and for every input below the 999-step label limit (parseBlocks_crlf_nobracket, parseBlocks_crlf_limit); beyond that the CRLF statement is false (finding D24 and its tab variant, witnesses proved); tie and the rendering level of the other clauses: correspondence on the variants plus the oracle",
     "C15": "full proof on the model: every recognizer equals (or is sound and complete for) its declarative definition on every line, classifiers over all 256 bytes, e-mail grammar, URI alphabet / well-formed escapes / idempotence; classifier bodies and constants are regenerated from /repo's source on every run (TieClassify.v, TieBlocks.v, TieRender.v); recognizers tied by exhaustive correspondence through the verif hook",
-    "C16": "partial proof at the block layer for inputs without NUL: every root for which the executable predicate covered holds re-parses alone to itself (ReparseAll.C16_blocks_partial; covered excludes only definition roots, roots cut while a paragraph beginning with '[' is open, and roots after a cut inside a paragraph holding definitions, the last lifted by a computed resync check); end to end on a slice of one-line paragraphs; the excluded roots and inputs with NUL: re-parse oracle on the implementation (also under one-byte reads) plus tree correspondence",
+    "C16": "partial proof at the block layer for inputs without NUL: every root for which the executable predicate covered holds re-parses alone to itself (ReparseAll2.C16_blocks2_partial; covered excludes only definition roots, roots cut while a paragraph beginning with '[' is open, and roots after a cut inside a paragraph holding definitions, the last lifted by a computed resync check); end to end on a slice of one-line paragraphs; the excluded roots and inputs with NUL: re-parse oracle on the implementation (also under one-byte reads) plus tree correspondence",
     "C17": "full proof on the model: first clause for whole documents (C17_only_lt_escaped); second clause for every input and every prefix-closed predicate against a WHATWG data-state tokenizer fragment (C17_no_rejected_start_renderDoc, no side condition); tie: model renderer+filter on the implementation's tree, filterRaw through the hook; oracle uses x/net/html's tokenizer",
     "C18": "full proof: the explicit-stack Walk equals the recursive traversal for every tree and every callback pair over any user state (run_refines_spec), cursor invariant at every callback (walk_cursors_ok), visit-once (visit_once); tie: event traces of the extracted model vs walk.go on the implementation's trees under random policies",
     "C19": "generic schedule-independence / race-freedom theorem (Interleave) whose premise is instantiated by an effect summary regenerated from /repo's typed AST on every run (no global writes, no stores through shared tree/renderer types on the read-only side), plus a -race build running the concurrent workload; the classification's soundness and the Go memory model are trusted",
